@@ -111,4 +111,20 @@ META = {
         "note": "Trusted: Lean kernel (standard axioms only) for the theorems; the harnesses, trace format, python RFC parsers and oracles for the tie. Assumed: Mutex mutual exclusion, bitvec shift/fill semantics, atomicity of fetch_update/fetch_max.",
         "technique": "Lean 4 refinement/induction proofs over the replay-window and key-id models + regenerated-constant bridges + differential (incl. exhaustive and threaded) correspondence",
     },
+
+    "C16": {
+        "category": "proof",
+        "text": ("Lean refinement theorems by induction over arbitrary operation histories: the duplicate window's outputs equal those of a plain "
+                 "reference set (Duplicate iff already accepted and within 128 of the right edge, TooOld iff at least 129 below, each number accepted "
+                 "at most once, never a false duplicate); the packet-number ring-buffer map refines an association list (get/insert/remove/"
+                 "remove_range/iter/resize) under exactly the precondition the code debug-asserts; interval set and ACK-range set are well formed "
+                 "and contain exactly the inserted-minus-removed elements, the bounded ACK-range set dropping only lowest ranges; the reassembly "
+                 "reference buffer hands out exactly the contiguous bytes written, once and in order, and rejects exactly the writes that "
+                 "contradict a final size or exceed the maximum offset. Tie: constants re-extracted with bridge lemmas and the Lean driver run "
+                 "against the real structures with full-content comparison after every operation, edge-concentrated generators and exhaustive "
+                 "enumeration of all short operation sequences."),
+        "note": ("Trusted: Lean kernel (standard axioms only), tools/extract.py, the vh-core harness, generators and python reference oracles. "
+                 "Not modelled: BytesMut pointer identity / allocation growth, allocation failure in Map::resize, leaked RemoveIter."),
+        "technique": "Lean 4 refinement proofs (abs∘step = spec step / simulation relations) by induction over operation lists + differential correspondence incl. exhaustive short sequences",
+    },
 }
